@@ -18,6 +18,15 @@ func runC03(c *Ctx) {
 		}
 		forInputsW(c, p, c.N(25, 60), 2, c.N(10, 40), func(input []byte, extra [][]byte, kind string, wlen int) {
 			res := runParser(c, p, input, extra)
+			if kind == "appended" && wlen >= 0 && wlen < len(input) && len(input)-wlen > 1000 {
+				// a long tail: whatever parse(w) is, parse(w ++ tail) is the same value and leaves the tail
+				base := runParser(c, p, input[:wlen], extra)
+				if base.OK {
+					ok := res.OK && bytes.Equal(res.Bytes, base.Bytes) && bytes.Equal(res.Rem, cat(base.Rem, input[wlen:]))
+					c.Check("append_invariant", ok, p.Name, append([][]byte{input[:wlen], i64(int64(len(input) - wlen))}, extra...), "",
+						fmt.Sprintf("parse(w) succeeds; with %d more bytes appended: ok=%v", len(input)-wlen, res.OK))
+				}
+			}
 			if !res.OK {
 				return
 			}
